@@ -43,8 +43,9 @@ type runner struct {
 	sweeping  bool
 	done      chan struct{}
 	collected []bcast
-	inWindow  bool   // between phase 1 and phase 2
-	gated     string // decoy channel the running sweep is parked on
+	inWindow  bool     // between phase 1 and phase 2
+	gated     string   // decoy channel the running sweep is parked on
+	early     *earlyOp // an operation already executed by the broadcast-order probe (its step comes later)
 }
 
 func (r *runner) fail(prop, sig, what string, step any, si int) {
@@ -137,6 +138,137 @@ func (r *runner) startSweep(si int) bool {
 		r.drift("the sweep did not reach the gate within 3 s", si)
 		return false
 	}
+}
+
+type earlyOp struct {
+	si  int
+	got updRes
+	h   []bcast
+}
+
+// orderProbe (C24, premise of C20/C22): per channel the event handler must receive the changes in the order they were applied
+// (stream-offset order) -- that holds because the publish lock covers "append + handler call", in Publish / Remove and in
+// phase 2 of the key sweep alike. The sweep of this run is going to remove `k` keys and the model's next step is an applied
+// Publish / Remove of the same channel: the sweeper is parked INSIDE its HandlePublication call for the k-th removal (the
+// handler is ours), the write is started on another goroutine. It has to wait (blocking assumption of the model: writers do
+// not run while the sweeper is between its append and the return of the handler call); once the call returns the handler
+// must have seen the removal before the later publication. The write's result is kept for its own step.
+func (r *runner) orderProbe(beh []map[string]any, si int) (handled bool, ok bool) {
+	k, j := 0, si
+	for ; j < len(beh); j++ {
+		stp := vh.Map(beh[j]["step"])
+		if vh.Str(stp["act"]) != "ExpirePhase2" {
+			break
+		}
+		if vh.Bool(stp["removed"]) {
+			k++
+		}
+	}
+	if k == 0 || j >= len(beh) {
+		return false, true
+	}
+	op := vh.Map(beh[j]["step"])
+	act := vh.Str(op["act"])
+	if act != "Publish" && act != "Remove" {
+		return false, true
+	}
+	if mr := vh.Map(op["res"]); vh.Bool(mr["err"]) || vh.Str(mr["sup"]) != "" {
+		return false, true
+	}
+	args := vh.Map(op["args"])
+	pk := &park{nth: k, entered: make(chan struct{}, 1), release: make(chan struct{})}
+	r.rec.mu.Lock()
+	r.rec.parks[r.ch] = pk
+	r.rec.mu.Unlock()
+	unpark := func() {
+		r.rec.mu.Lock()
+		delete(r.rec.parks, r.ch)
+		r.rec.mu.Unlock()
+	}
+	if r.held { // open the decoy gate: phase 2 of the channel under test starts
+		close(r.g.release)
+		r.held = false
+	}
+	select {
+	case <-pk.entered:
+	case <-r.done:
+		unpark() // fewer removals than the reference: the ordinary comparison of the run reports it
+		return false, true
+	case <-time.After(3 * time.Second):
+		unpark()
+		close(pk.release)
+		r.drift("broadcast-order probe: the sweep did not reach its removal broadcast within 3 s", si)
+		return true, false
+	}
+	var got updRes
+	opDone := make(chan struct{})
+	go func() {
+		defer close(opDone)
+		if act == "Publish" {
+			got = doPublish(r.b, r.ch, args, r.ep, r.tick)
+		} else {
+			got = doRemove(r.b, r.ch, args, r.ep, r.tick)
+		}
+	}()
+	waited := true
+	select {
+	case <-opDone:
+		waited = false
+	case <-time.After(40 * time.Millisecond):
+	}
+	if waited {
+		r.res.Count("order_probe_writer_waited_for_the_sweepers_handler_call", 1)
+	}
+	unpark()
+	close(pk.release)
+	okAll := true
+	select {
+	case <-r.done:
+	case <-time.After(3 * time.Second):
+		r.drift("broadcast-order probe: the sweep did not finish within 3 s after its handler call returned", si)
+		okAll = false
+	}
+	select {
+	case <-opDone:
+	case <-time.After(3 * time.Second):
+		r.drift("broadcast-order probe: the write did not return within 3 s after the sweep finished", si)
+		return true, false
+	}
+	r.sweeping = false
+	r.rec.mu.Lock()
+	delete(r.rec.gates, r.gated)
+	r.rec.mu.Unlock()
+	all := r.rec.take(r.ch) // in the order the handler calls RETURNED
+	r.res.Count("order_probes", 1)
+	// the write's own broadcast; the rest belongs to the sweep
+	mine := -1
+	for i, x := range all {
+		if (act == "Publish" && !x.Rm && x.ID == vh.Int(args["id"])) || (act == "Remove" && x.Rm && x.Key == vh.Str(args["key"]) && got.Err == "" && got.Sup == "") {
+			mine = i
+		}
+	}
+	var h []bcast
+	for i, x := range all {
+		if i == mine {
+			h = append(h, x)
+		} else {
+			r.collected = append(r.collected, x)
+		}
+	}
+	if mine >= 0 {
+		w := all[mine]
+		for _, x := range r.collected {
+			if x.Rm && x.Start < w.Start && w.End < x.End {
+				what := fmt.Sprintf("the event handler received the later %s of key %s (offset %d) while the sweep's call for the expiry removal of key %s (offset %d) had not returned: "+
+					"subscribers get [publication %d, removal %d] and one that applies events in arrival order ends with a key set that differs from the state; "+
+					"the write did not wait for the sweeper's handler call (waited=%v)", act, w.Key, w.Off, x.Key, x.Off, w.Off, x.Off, waited)
+				r.fail("C24", "expiry:removal-broadcast-after-later-publication", what, op, si)
+				return true, false
+			}
+		}
+	}
+	r.early = &earlyOp{si: j, got: got, h: h}
+	return true, okAll
 }
 
 func (r *runner) finishSweep(si int) bool {
@@ -232,7 +364,11 @@ func (r *runner) run(beh []map[string]any) (completed int) {
 			}
 			if r.inWindow {
 				r.inWindow = false
-				if !r.finishSweep(si) {
+				handled, ok := r.orderProbe(beh, si)
+				if !ok {
+					return 0
+				}
+				if !handled && !r.finishSweep(si) {
 					return 0
 				}
 				if r.late(now) {
@@ -261,7 +397,8 @@ func (r *runner) run(beh []map[string]any) (completed int) {
 					r.fail("C24", "expiry:spurious-removal", fmt.Sprintf("the sweep broadcast %s beyond the reference removals", vh.J(r.collected)), step, si)
 					return 0
 				}
-				if !r.checkSnapshot(st, "C24", "expiry:after-sweep", step, si) {
+				// (after a broadcast-order probe the next write has already run: the state is compared at its own step)
+				if r.early == nil && !r.checkSnapshot(st, "C24", "expiry:after-sweep", step, si) {
 					return 0
 				}
 			}
@@ -316,12 +453,18 @@ func (r *runner) run(beh []map[string]any) (completed int) {
 		switch act {
 		case "Publish", "Remove":
 			var got updRes
-			if act == "Publish" {
-				got = doPublish(r.b, r.ch, args, r.ep, r.tick)
+			var h []bcast
+			if r.early != nil && r.early.si == si { // already executed by the broadcast-order probe
+				got, h = r.early.got, r.early.h
+				r.early = nil
 			} else {
-				got = doRemove(r.b, r.ch, args, r.ep, r.tick)
+				if act == "Publish" {
+					got = doPublish(r.b, r.ch, args, r.ep, r.tick)
+				} else {
+					got = doRemove(r.b, r.ch, args, r.ep, r.tick)
+				}
+				h = r.rec.take(r.ch)
 			}
-			h := r.rec.take(r.ch)
 			if r.late(now) {
 				r.res.Count("skipped_late", 1)
 				return 0
